@@ -1,0 +1,60 @@
+//go:build verif
+// +build verif
+
+package log
+
+import (
+	"github.com/knz/shakespeare/pkg/crdb/timeutil"
+)
+
+// This file only adds exported wrappers around unexported pieces of the
+// package, for the C16 verification harness (/verif/harness/c16). Nothing
+// here changes the behavior of the code it calls.
+
+// VerifLogger is a handle on the rotation/GC machinery of the main logger
+// or of a secondary logger.
+type VerifLogger struct{ l *loggingT }
+
+// VerifMainLogger returns the handle for the main logger.
+func VerifMainLogger() VerifLogger { return VerifLogger{l: &logging} }
+
+// VerifSecondaryLogger returns the handle for a secondary logger.
+func VerifSecondaryLogger(s *SecondaryLogger) VerifLogger { return VerifLogger{l: &s.logger} }
+
+// GCNow runs gcOldFiles once, the way gcDaemon does (under the logger's mutex).
+func (v VerifLogger) GCNow() {
+	v.l.mu.Lock()
+	defer v.l.mu.Unlock()
+	v.l.gcOldFiles()
+}
+
+// ListFiles is listLogFiles: the log files that carry this logger's prefix.
+func (v VerifLogger) ListFiles() ([]FileInfo, error) { return v.l.listLogFiles() }
+
+// State reports whether a file is open and the syncBuffer's byte count.
+func (v VerifLogger) State() (open bool, nbytes int64, lastRotation int64) {
+	v.l.mu.Lock()
+	defer v.l.mu.Unlock()
+	if sb, ok := v.l.file.(*syncBuffer); ok && sb != nil {
+		return true, sb.nbytes, sb.lastRotation
+	}
+	return false, 0, 0
+}
+
+// CloseFile flushes and closes the current file (what dirTestOverride does for
+// the main logger when a test scope ends).
+func (v VerifLogger) CloseFile() error {
+	v.l.mu.Lock()
+	defer v.l.mu.Unlock()
+	v.l.flushAndSync(true /*doSync*/)
+	return v.l.closeFileLocked()
+}
+
+// FileName is logName for this logger's prefix and the given time stamp.
+func (v VerifLogger) FileName(unixSec int64) string {
+	name, _ := logName(v.l.prefix, timeutil.Unix(unixSec, 0))
+	return name
+}
+
+// VerifLogDir returns the main logger's current log directory ("" if unset).
+func VerifLogDir() string { return logging.logDir.String() }
